@@ -368,6 +368,11 @@ fn pnet_case(check: &Check, rng: &mut Rng) {
 // (d) PreSharedKey text
 // ---------------------------------------------------------------------------------------------
 
+fn serde_json_from(s: &str) -> Option<vmon::Value> {
+    // vmon re-exports serde_json's Value/json!; parsing goes through its FromStr
+    s.parse::<vmon::Value>().ok()
+}
+
 const HDR: &str = "/key/swarm/psk/1.0.0/\n/base16/\n";
 
 fn judge_psk_text(check: &Check, s: &str, origin: &str) {
@@ -479,6 +484,19 @@ pub fn run(args: &Args) -> i32 {
          texts incl. every alignment of 2/3/4-byte UTF-8 characters in a 64-byte key line. non-trivial = case executed its \
          control path (pnet: at least one payload byte); distinct by (message, lengths, schedule)",
     );
+    if let Some(path) = &args.replay {
+        // replay of a stored witness: key-file texts are self-contained
+        let v: vmon::Value = std::fs::read_to_string(path).ok().and_then(|s| serde_json_from(&s)).unwrap_or(vmon::Value::Null);
+        match v["witness"]["text"].as_str() {
+            Some(t) => {
+                judge_psk_text(&check, t, "replay");
+                check.nontrivial(1);
+                check.nontrivial(2);
+            }
+            None => check.inconclusive("replay file has no witness.text (only key-file witnesses are replayable)"),
+        }
+        return check.finish();
+    }
     let n_raw = budget(args, 20, 3_000, 60_000);
     vmon::par_cases(&check, n_raw, args.threads, |_, rng| plaintext_raw_case(&check, rng));
     check.note("phase_s_plaintext_raw", json!(check.elapsed()));
